@@ -266,6 +266,7 @@ class Adapter(object):
             self._open_shelves()
 
     def close(self):
+        sf.FdGuard.sample()
         self.stack.close()
 
     def do(self, o, form='set'):
@@ -899,11 +900,18 @@ def stream_interleaved(ctx, n):
 def run(ctx):
     q = ctx.quick
     _seen.clear()
-    stream_random(ctx, 150 if q else 3000, 14)
-    nex = stream_exhaustive(ctx, 3 if q else 4)
-    stream_misuse(ctx, 80 if q else 1500, 10)
-    nr = stream_rounds(ctx, 3 if q else 4)
-    stream_interleaved(ctx, 60 if q else 1500)
+    sf.FdGuard.peak = 0
+    with sf.FdGuard('c15 random'):
+        stream_random(ctx, 150 if q else 3000, 14)
+    with sf.FdGuard('c15 exhaustive'):
+        nex = stream_exhaustive(ctx, 3 if q else 4)
+    with sf.FdGuard('c15 misuse'):
+        stream_misuse(ctx, 80 if q else 1500, 10)
+    with sf.FdGuard('c15 rounds'):
+        nr = stream_rounds(ctx, 3 if q else 4)
+    with sf.FdGuard('c15 interleaved'):
+        stream_interleaved(ctx, 60 if q else 1500)
+    ctx.note('file descriptors: at most %d open at a time during the run (every stream is checked for leaks)' % sf.FdGuard.peak)
     ctx.extra['rule'] = (
         'random: well-formed single-round operation sequences (2-14 ops + load/get tail) over up to ~4 messages, uuid '
         'collisions with live/removed ids scripted, marks passed as set (as the Queue does) / list / tuple / frozenset, '
